@@ -776,7 +776,7 @@ def T2(F, rep, R, FL, ws):
     for f in ctor:
         for n in walk(f['body']):
             if n.get('k') == 'Call' and n.get('fn') == 'setBufferSize' and field_root(member_path(n.get('obj'))) == st:
-                bsrc = expr_str(n['args'][0])
+                bsrc = expr_str(deep_resolve(n['args'][0], f))
     # requests: calls of AbstractFile::read bound to the stream, per mode
     for mode in ('read', 'write'):
         rep.count('T2')
@@ -826,9 +826,9 @@ def buffer_tracks_container(F, FL, st):
             sb = [n for n in calls if n.get('fn') == 'setBufferSize']
             sc = [n for n in calls if n.get('fn') == 'setDefaultLogContainerSize']
             for n in sb:
-                a = strip_all_casts(n['args'][0])
+                a = strip_all_casts(deep_resolve(n['args'][0], fn))
                 from_getter = a.get('k') == 'Call' and a.get('fn') == 'defaultLogContainerSize' and field_root(member_path(a.get('obj')) or ()) == st
-                same_as_setter = any(expr_str(x['args'][0]) == expr_str(n['args'][0]) and x['l'] <= n['l'] for x in sc)
+                same_as_setter = any(expr_str(deep_resolve(x['args'][0], fn)) == expr_str(deep_resolve(n['args'][0], fn)) and x['l'] <= n['l'] for x in sc)
                 if not (from_getter or same_as_setter):
                     return False, '%s gives setBufferSize(%s)' % (short(fn['name']), expr_str(a))
             for x in sc:
@@ -838,7 +838,7 @@ def buffer_tracks_container(F, FL, st):
                     if not idx or out not in ('normal', 'return'):
                         continue
                     if not any(e['ev'] == 'call' and e['n'].get('fn') == 'setBufferSize' and field_root(member_path(e['n'].get('obj')) or ()) == st and
-                               expr_str(e['n']['args'][0]) == expr_str(x['args'][0]) for e in evs[idx[0]:]):
+                               expr_str(deep_resolve(e['n']['args'][0], fn)) == expr_str(deep_resolve(x['args'][0], fn)) for e in evs[idx[0]:]):
                         return False, '%s changes the container size without adjusting the buffer size' % short(fn['name'])
     return True, '%d setter site(s) adjust both' % setters
 
@@ -865,6 +865,65 @@ def resolve_alias(e, fn):
                 return e
         e = init
     return e
+
+
+def _alias_table(fn):
+    """locals that are initialised once and never reassigned / address-taken / mutated through a non-const method"""
+    t = fn.get('_alias')
+    if t is not None:
+        return t
+    inits, bad = {}, set()
+    for n in walk(fn['body']):
+        k = n.get('k')
+        if k == 'Decl':
+            for v in n['vars']:
+                if v.get('init') is not None and not v.get('static'):
+                    if v['id'] in inits:
+                        bad.add(v['id'])
+                    inits[v['id']] = v['init']
+                else:
+                    bad.add(v['id'])
+        elif k == 'Bin' and n.get('op') in ('=', '+=', '-=', '*=', '/=', '|=', '&=', '%='):
+            x = strip_all_casts(n['lhs'])
+            if isinstance(x, dict) and x.get('k') == 'Ref':
+                bad.add(x.get('id'))
+        elif k == 'Un' and n.get('op') in ('++', '--', '&'):
+            x = strip_all_casts(n['sub'])
+            if isinstance(x, dict) and x.get('k') == 'Ref':
+                bad.add(x.get('id'))
+        elif k == 'Call' and n.get('ck') == 'operator' and n.get('op') in ('=', '+=', '-=', '++', '--') and n.get('args'):
+            x = strip_all_casts(n['args'][0])
+            if isinstance(x, dict) and x.get('k') == 'Ref':
+                bad.add(x.get('id'))
+        elif k == 'Call' and n.get('ck') == 'member' and not n.get('cconst') and n.get('obj') is not None:
+            x = strip_all_casts(n['obj'])
+            if isinstance(x, dict) and x.get('k') == 'Ref' and not x.get('t', '').endswith('*') and 'shared_ptr' not in x.get('t', ''):
+                bad.add(x.get('id'))
+    t = {i: e for i, e in inits.items() if i not in bad}
+    fn['_alias'] = t
+    return t
+
+
+def deep_resolve(e, fn, depth=0):
+    """copy of the expression with every single-assignment local replaced by its initialiser (copy propagation):
+    `const auto n = f(); g(n)` is analysed as `g(f())`"""
+    if not isinstance(e, dict) or depth > 6:
+        return e
+    t = _alias_table(fn)
+    x = e
+    if e.get('k') == 'Ref' and e.get('dk') == 'local' and e.get('id') in t:
+        init = t[e['id']]
+        # scalars, pointers and iterators only: an object copy is a different thing than its source
+        return deep_resolve(init, fn, depth + 1)
+    out = {}
+    for k, v in e.items():
+        if isinstance(v, dict):
+            out[k] = deep_resolve(v, fn, depth)
+        elif isinstance(v, list):
+            out[k] = [deep_resolve(i, fn, depth) if isinstance(i, dict) else i for i in v]
+        else:
+            out[k] = v
+    return out
 
 
 def bounded_expr(F, e):
